@@ -518,6 +518,25 @@ fn layout_only_difference(a: &str, b: &str) -> bool {
 			if x == "," && t.get(i + 1).is_some_and(|n| matches!(n.as_str(), ")" | "]" | "}")) {
 				continue;
 			}
+			if x.starts_with("|||") {
+				// a text block re-indented with its surroundings denotes the same string: compare it without the
+				// indentation that its first content line fixes
+				let mut lines = x.split('\n');
+				let head = lines.next().unwrap_or("").to_owned();
+				let rest: Vec<&str> = lines.collect();
+				let ind: String = rest.iter().find(|l| !l.trim().is_empty()).map(|l| l.chars().take_while(|c| *c == ' ' || *c == '\t').collect()).unwrap_or_default();
+				let mut norm = head;
+				for (k, l) in rest.iter().enumerate() {
+					norm.push('\n');
+					if k + 1 == rest.len() {
+						norm.push_str(l.trim_start());
+					} else {
+						norm.push_str(l.strip_prefix(ind.as_str()).unwrap_or(l));
+					}
+				}
+				out.push(norm);
+				continue;
+			}
 			out.push(x.clone());
 		}
 		out
@@ -578,7 +597,17 @@ pub fn fixpoint_case(run: &Run, p: &Prog) -> CaseOut {
 	}
 	if !problems.is_empty() && p.anywhere && run.is_known(K20_COMMENTS) {
 		if let Some(bare) = p.without_comments() {
-			if matches!(fixpoint_case(run, &bare).verdict, Verdict::Pass | Verdict::Known(_)) {
+			let bare_out = fixpoint_case(run, &bare);
+			if std::env::var_os("C20_DEBUG").is_some() {
+				let v = match &bare_out.verdict {
+					Verdict::Pass => "pass".to_owned(),
+					Verdict::Known(k) => format!("known {k}"),
+					Verdict::Discard(w) => format!("discard {w}"),
+					Verdict::Fail(w) => format!("FAIL {w}"),
+				};
+				eprintln!("[C20] same program without comments:\n{}\n[C20] verdict: {v}", bare.text);
+			}
+			if matches!(bare_out.verdict, Verdict::Pass | Verdict::Known(_)) {
 				return CaseOut { verdict: Verdict::Known(K20_COMMENTS.to_owned()), text: text.clone(), nontrivial, classes: vec![] };
 			}
 		}
